@@ -1505,6 +1505,69 @@ func (c *Ctx) globalArrayLit(g *ssa.Global) (map[int64]constant.Value, bool) {
 	return nil, false
 }
 
+// globalMapLit: a package-level map declared with a literal whose keys and values are constants, and written by
+// no function of the package (no store to the variable, no update or delete of an entry).
+func (c *Ctx) globalMapLit(g *ssa.Global) (map[string]constant.Value, bool) {
+	for _, fn := range c.allFns {
+		for _, b := range fn.Blocks {
+			for _, in := range b.Instrs {
+				switch t := in.(type) {
+				case *ssa.Store:
+					if rootGlobal(t.Addr) == g {
+						return nil, false
+					}
+				case *ssa.MapUpdate:
+					if u, ok := t.Map.(*ssa.UnOp); ok && u.X == ssa.Value(g) {
+						return nil, false
+					}
+				case *ssa.Call:
+					if isBuiltinCall(t, "delete") && len(t.Call.Args) > 0 {
+						if u, ok := t.Call.Args[0].(*ssa.UnOp); ok && u.X == ssa.Value(g) {
+							return nil, false
+						}
+					}
+				}
+			}
+		}
+	}
+	info := c.P.TypesInfo
+	for _, f := range c.P.Syntax {
+		for _, d := range f.Decls {
+			gd, ok := d.(*ast.GenDecl)
+			if !ok || gd.Tok != token.VAR {
+				continue
+			}
+			for _, sp := range gd.Specs {
+				vs := sp.(*ast.ValueSpec)
+				for i, nm := range vs.Names {
+					if nm.Name != g.Name() || info.Defs[nm] == nil || info.Defs[nm].Parent() != c.P.Types.Scope() || i >= len(vs.Values) {
+						continue
+					}
+					cl, ok := vs.Values[i].(*ast.CompositeLit)
+					if !ok {
+						return nil, false
+					}
+					out := map[string]constant.Value{}
+					for _, el := range cl.Elts {
+						kv, ok := el.(*ast.KeyValueExpr)
+						if !ok {
+							return nil, false
+						}
+						k, ok1 := info.Types[kv.Key]
+						v, ok2 := info.Types[kv.Value]
+						if !ok1 || !ok2 || k.Value == nil || v.Value == nil || k.Value.Kind() != constant.String {
+							return nil, false
+						}
+						out[constant.StringVal(k.Value)] = v.Value
+					}
+					return out, true
+				}
+			}
+		}
+	}
+	return nil, false
+}
+
 // runeWrite: one alternative of a Write inside the per-character loop of the string writer: the bytes
 // (elements of a slice literal when known) and the code points for which this alternative is written.
 type runeWrite struct {
